@@ -1,2 +1,583 @@
-/- C18 (statements are being added) -/
+/-
+  C18 — rollout is the inverse of flattening separator-joined keys.
+-/
 import D42.Model.Rollout
+
+namespace D42
+
+/-- nested mappings with string keys; `optional(...)` may wrap the keys of leaves only -/
+inductive Tree where
+  | leaf (payload : Nat)
+  | node (kids : List (Str × Bool × Tree))       -- (key, wrapped in optional, subtree)
+deriving Repr, Inhabited
+
+/-- the mapping as `rollout` returns it -/
+def Tree.toRVal : Tree → RVal
+  | .leaf p => .leaf p
+  | .node kids => .dict (toKVs kids)
+where
+  toKVs : List (Str × Bool × Tree) → List (RKey × RVal)
+    | [] => []
+    | (k, o, t) :: r => (.str k o, t.toRVal) :: toKVs r
+
+/-- flattening: every leaf under the separator-joined path of its keys (depth-first, in key order) -/
+def flattenKids (sep : Str) : List (Str × Bool × Tree) → List (RKey × RVal)
+  | [] => []
+  | (k, o, .leaf p) :: r => (.str k o, .leaf p) :: flattenKids sep r
+  | (k, _, .node kids) :: r =>
+    (flattenKids sep kids).map (fun kv => match kv.1 with
+      | .str s o => (RKey.str (k ++ sep ++ s) o, kv.2)
+      | other => (other, kv.2)) ++ flattenKids sep r
+
+/-- a key is *separator-safe*: it does not contain the separator, and appending the separator does not
+    create an earlier occurrence (always true for single-character separators absent from the key;
+    false e.g. for key "x:" with separator "::" — finding K9) -/
+def SepSafe (sep k : Str) : Prop := ∀ u : Str, splitFirst sep (k ++ sep ++ u) = some (k, u)
+
+def NoSep (sep k : Str) : Prop := splitFirst sep k = none
+
+mutual
+/-- well-formed tree: keys of one node are distinct, separator-free and separator-safe; inner nodes are
+    non-empty and their own key is not wrapped in `optional` -/
+def WFTree (sep : Str) : Tree → Prop
+  | .leaf _ => True
+  | .node kids => kids ≠ [] ∧ ((kids.map (·.1)).Nodup) ∧ WFKids sep kids
+def WFKids (sep : Str) : List (Str × Bool × Tree) → Prop
+  | [] => True
+  | (k, o, t) :: r => NoSep sep k ∧ SepSafe sep k ∧ (match t with | .leaf _ => True | .node _ => o = false) ∧
+      WFTree sep t ∧ WFKids sep r
+end
+
+/-! ### theorems -/
+
+/-- `splitFirst` finds an occurrence: the string is head ++ sep ++ tail -/
+theorem splitFirst_some (sep s h t : Str) (hs : sep ≠ []) (h1 : splitFirst sep s = some (h, t)) :
+    s = h ++ sep ++ t := by
+  induction s generalizing h t with
+  | nil => simp [splitFirst, hs] at h1
+  | cons c r ih =>
+    simp only [splitFirst] at h1
+    split at h1
+    · rename_i hp
+      obtain ⟨u, hu⟩ := List.isPrefixOf_iff_prefix.mp hp
+      simp at h1; obtain ⟨rfl, rfl⟩ := h1
+      rw [← hu]; simp
+    · cases h2 : splitFirst sep r with
+      | none => simp [h2] at h1
+      | some ht =>
+        simp [h2] at h1
+        obtain ⟨rfl, rfl⟩ := h1
+        have := ih _ _ h2
+        simp [this]
+
+theorem splitFirst_none_iff (sep s : Str) (hs : sep ≠ []) : splitFirst sep s = none ↔ ¬ sep <:+: s := by
+  induction s with
+  | nil => simp [splitFirst, hs]
+  | cons c r ih =>
+    simp only [splitFirst, List.infix_cons_iff]
+    split
+    · rename_i hp
+      simp [List.isPrefixOf_iff_prefix.mp hp]
+    · rename_i hp
+      have : ¬ sep <+: c :: r := fun h => hp (List.isPrefixOf_iff_prefix.mpr h)
+      simp [this, ih]
+
+/-! ### helper lemmas -/
+
+theorem rlookup_none_iff (k : RKey) (d : List (RKey × RVal)) :
+    rlookup k d = none ↔ ∀ kv ∈ d, kv.1 ≠ k := by
+  induction d with
+  | nil => simp [rlookup]
+  | cons kv r ih =>
+    obtain ⟨k', v⟩ := kv
+    simp only [rlookup]
+    split
+    · rename_i h; subst h; simp
+    · rename_i h; simp [ih]; exact fun _ e => h e.symm
+
+theorem rlookup_append_none (k : RKey) (a b : List (RKey × RVal)) (h : rlookup k a = none) :
+    rlookup k (a ++ b) = rlookup k b := by
+  induction a with
+  | nil => rfl
+  | cons kv r ih =>
+    obtain ⟨k', v⟩ := kv
+    simp only [rlookup, List.cons_append] at h ⊢
+    split at h
+    · cases h
+    · rename_i hne; simp [hne, ih h]
+
+theorem rupsert_fresh (k : RKey) (v : RVal) (d : List (RKey × RVal)) (h : rlookup k d = none) :
+    rupsert d k v = d ++ [(k, v)] := by
+  simp [rupsert, h]
+
+theorem map_repl_self (k : RKey) (v : RVal) (a : List (RKey × RVal)) (h : rlookup k a = none) :
+    a.map (fun kv => if kv.1 = k then (k, v) else kv) = a := by
+  induction a with
+  | nil => rfl
+  | cons kv r ih =>
+    obtain ⟨k', v'⟩ := kv
+    simp only [rlookup] at h
+    split at h
+    · cases h
+    · rename_i hne
+      have : ¬ k' = k := fun e => hne e.symm
+      simp [this, ih h]
+
+theorem rupsert_last (k : RKey) (v v' : RVal) (a : List (RKey × RVal)) (h : rlookup k a = none) :
+    rupsert (a ++ [(k, v)]) k v' = a ++ [(k, v')] := by
+  simp [rupsert, rlookup_append_none k a _ h, rlookup, map_repl_self k v' a h]
+
+theorem pass_append (sep : Str) : ∀ (A B upd u : List (RKey × RVal)),
+    rolloutPass sep upd A = .ok u → rolloutPass sep upd (A ++ B) = rolloutPass sep u B := by
+  intro A
+  induction A with
+  | nil => intro B upd u h; simp [rolloutPass] at h; subst h; rfl
+  | cons kv r ih =>
+    intro B upd u h
+    simp only [rolloutPass, List.cons_append] at h ⊢
+    cases h1 : rolloutStep sep upd kv with
+    | error e => simp [h1, bind, Except.bind] at h
+    | ok u1 =>
+      simp only [h1, bind, Except.bind] at h ⊢
+      exact ih B u1 u h
+
+def pref (sep k : Str) : RKey × RVal → RKey × RVal := fun kv => match kv.1 with
+  | .str s o => (RKey.str (k ++ sep ++ s) o, kv.2)
+  | other => (other, kv.2)
+
+theorem flattenKids_node (sep k : Str) (o : Bool) (kids : List (Str × Bool × Tree)) (r) :
+    flattenKids sep ((k, o, .node kids) :: r) = (flattenKids sep kids).map (pref sep k) ++ flattenKids sep r := by
+  rw [flattenKids]; rfl
+
+def headOf (sep s : Str) : Str := match splitFirst sep s with
+  | none => s
+  | some (h, _) => h
+
+theorem headOf_noSep {sep k : Str} (h : NoSep sep k) : headOf sep k = k := by
+  simp [headOf, show splitFirst sep k = none from h]
+
+theorem headOf_sepSafe {sep k : Str} (h : SepSafe sep k) (u : Str) : headOf sep (k ++ sep ++ u) = k := by
+  simp only [headOf, h u]
+
+theorem flat_keys (sep : Str) : ∀ kids, WFKids sep kids → ∀ kv ∈ flattenKids sep kids,
+    ∃ s o, kv.1 = RKey.str s o ∧ headOf sep s ∈ kids.map (·.1)
+  | [], _, kv, h => by simp [flattenKids] at h
+  | (k, o, .leaf p) :: r, hw, kv, h => by
+    simp only [WFKids] at hw
+    simp only [flattenKids, List.mem_cons] at h
+    rcases h with rfl | h
+    · exact ⟨k, o, rfl, by simp [headOf_noSep hw.1]⟩
+    · obtain ⟨s, o', e, hm⟩ := flat_keys sep r hw.2.2.2.2 kv h
+      exact ⟨s, o', e, by simp at hm ⊢; exact Or.inr hm⟩
+  | (k, o, .node kids') :: r, hw, kv, h => by
+    simp only [WFKids, WFTree] at hw
+    rw [flattenKids_node, List.mem_append, List.mem_map] at h
+    rcases h with ⟨kv0, h0, rfl⟩ | h
+    · obtain ⟨s, o', e, _⟩ := flat_keys sep kids' hw.2.2.2.1.2.2 kv0 h0
+      refine ⟨k ++ sep ++ s, o', by simp [pref, e], ?_⟩
+      rw [headOf_sepSafe hw.2.1]; simp
+    · obtain ⟨s, o', e, hm⟩ := flat_keys sep r hw.2.2.2.2 kv h
+      exact ⟨s, o', e, by simp at hm ⊢; exact Or.inr hm⟩
+
+def AllStr (L : List (RKey × RVal)) : Prop := ∀ kv ∈ L, ∃ s o, kv.1 = RKey.str s o
+
+theorem flat_allStr (sep : Str) (kids) (hw : WFKids sep kids) : AllStr (flattenKids sep kids) := by
+  intro kv h
+  obtain ⟨s, o, e, _⟩ := flat_keys sep kids hw kv h
+  exact ⟨s, o, e⟩
+
+theorem flat_ne (sep : Str) : ∀ kids, WFKids sep kids → kids ≠ [] → flattenKids sep kids ≠ []
+  | [], _, h => by simp at h
+  | (k, o, .leaf p) :: r, _, _ => by simp [flattenKids]
+  | (k, o, .node kids') :: r, hw, _ => by
+    simp only [WFKids, WFTree] at hw
+    have := flat_ne sep kids' hw.2.2.2.1.2.2 hw.2.2.2.1.1
+    rw [flattenKids_node]
+    simp [this]
+
+theorem pref_nodup (sep k : Str) : ∀ L : List (RKey × RVal), AllStr L → (L.map (·.1)).Nodup →
+    ((L.map (pref sep k)).map (·.1)).Nodup := by
+  intro L
+  induction L with
+  | nil => simp
+  | cons kv r ih =>
+    intro ha hn
+    simp only [List.map_cons, List.nodup_cons] at hn ⊢
+    have har : AllStr r := fun x hx => ha x (List.mem_cons_of_mem _ hx)
+    refine ⟨?_, ih har hn.2⟩
+    intro hm
+    simp only [List.mem_map] at hm
+    obtain ⟨_, ⟨kv', hkv', rfl⟩, e⟩ := hm
+    obtain ⟨s, o, e1⟩ := ha kv (List.mem_cons_self ..)
+    obtain ⟨s', o', e2⟩ := har kv' hkv'
+    apply hn.1
+    simp only [List.mem_map]
+    refine ⟨kv', hkv', ?_⟩
+    simp [pref, e1, e2] at e
+    rw [e1, e2, e.1, e.2]
+
+theorem flat_nodup (sep : Str) : ∀ kids, WFKids sep kids → (kids.map (·.1)).Nodup →
+    ((flattenKids sep kids).map (·.1)).Nodup
+  | [], _, _ => by simp [flattenKids]
+  | (k, o, .leaf p) :: r, hw, hn => by
+    simp only [WFKids] at hw
+    simp only [List.map_cons, List.nodup_cons, flattenKids] at hn ⊢
+    refine ⟨?_, flat_nodup sep r hw.2.2.2.2 hn.2⟩
+    intro hm
+    simp only [List.mem_map] at hm
+    obtain ⟨kv, hkv, e⟩ := hm
+    obtain ⟨s, o', e', hh⟩ := flat_keys sep r hw.2.2.2.2 kv hkv
+    rw [e'] at e
+    injection e with e1 e2
+    subst e1
+    rw [headOf_noSep hw.1] at hh
+    exact hn.1 hh
+  | (k, o, .node kids') :: r, hw, hn => by
+    simp only [WFKids, WFTree] at hw
+    simp only [List.map_cons, List.nodup_cons] at hn
+    rw [flattenKids_node, List.map_append, List.nodup_append]
+    refine ⟨pref_nodup sep k _ (flat_allStr sep kids' hw.2.2.2.1.2.2)
+        (flat_nodup sep kids' hw.2.2.2.1.2.2 hw.2.2.2.1.2.1), flat_nodup sep r hw.2.2.2.2 hn.2, ?_⟩
+    intro a ha b hb e
+    subst e
+    simp only [List.mem_map] at ha hb
+    obtain ⟨_, ⟨kv0, h0, rfl⟩, ea⟩ := ha
+    obtain ⟨kv, hkv, eb⟩ := hb
+    obtain ⟨s0, o0, e0, _⟩ := flat_keys sep kids' hw.2.2.2.1.2.2 kv0 h0
+    obtain ⟨s, o', e', hh⟩ := flat_keys sep r hw.2.2.2.2 kv hkv
+    have : (pref sep k kv0).1 = RKey.str (k ++ sep ++ s0) o0 := by simp [pref, e0]
+    rw [← ea, e', this] at eb
+    injection eb with e1 e2
+    subst e1
+    rw [headOf_sepSafe hw.2.1] at hh
+    exact hn.1 hh
+
+theorem pass_inner (sep k : Str) (hk : SepSafe sep k) : ∀ (L d upd0 : List (RKey × RVal)),
+    rlookup (.str k false) upd0 = none → AllStr L → ((d ++ L).map (·.1)).Nodup →
+    rolloutPass sep (upd0 ++ [(.str k false, .dict d)]) (L.map (pref sep k))
+      = .ok (upd0 ++ [(.str k false, .dict (d ++ L))]) := by
+  intro L
+  induction L with
+  | nil => intro d upd0 _ _ _; simp [rolloutPass]
+  | cons kv r ih =>
+    intro d upd0 h0 ha hn
+    obtain ⟨s, o, e1⟩ := ha kv (List.mem_cons_self ..)
+    obtain ⟨k1, v⟩ := kv
+    simp only at e1
+    subst e1
+    have har : AllStr r := fun x hx => ha x (List.mem_cons_of_mem _ hx)
+    have hfresh : rlookup (.str s o) d = none := by
+      rw [rlookup_none_iff]
+      intro kv hkv e
+      rw [List.map_append, List.nodup_append] at hn
+      exact hn.2.2 kv.1 (List.mem_map_of_mem hkv) (.str s o) (by simp) e
+    have hstep : rolloutStep sep (upd0 ++ [(.str k false, .dict d)]) (pref sep k (.str s o, v))
+        = .ok (upd0 ++ [(.str k false, .dict (d ++ [(.str s o, v)]))]) := by
+      simp only [pref, rolloutStep, hk s, rlookup_append_none _ _ _ h0, rlookup, if_true]
+      rw [rupsert_last _ _ _ _ h0, rupsert_fresh _ _ _ hfresh]
+    simp only [List.map_cons, rolloutPass, hstep, bind, Except.bind]
+    have := ih (d ++ [(RKey.str s o, v)]) upd0 h0 har (by simpa using hn)
+    rw [this]; simp
+
+theorem pass_node (sep k : Str) (hk : SepSafe sep k) (L upd : List (RKey × RVal)) (hne : L ≠ [])
+    (h0 : rlookup (.str k false) upd = none) (ha : AllStr L) (hn : (L.map (·.1)).Nodup) :
+    rolloutPass sep upd (L.map (pref sep k)) = .ok (upd ++ [(.str k false, .dict L)]) := by
+  cases L with
+  | nil => simp at hne
+  | cons kv r =>
+    obtain ⟨s, o, e1⟩ := ha kv (List.mem_cons_self ..)
+    obtain ⟨k1, v⟩ := kv
+    simp only at e1
+    subst e1
+    have har : AllStr r := fun x hx => ha x (List.mem_cons_of_mem _ hx)
+    have hstep : rolloutStep sep upd (pref sep k (.str s o, v))
+        = .ok (upd ++ [(.str k false, .dict [(.str s o, v)])]) := by
+      simp only [pref, rolloutStep, hk s, h0]
+    simp only [List.map_cons, rolloutPass, hstep, bind, Except.bind]
+    have := pass_inner sep k hk r [(RKey.str s o, v)] upd h0 har (by simpa using hn)
+    rw [this]; simp
+
+def level1 (sep : Str) : List (Str × Bool × Tree) → List (RKey × RVal)
+  | [] => []
+  | (k, o, .leaf p) :: r => (.str k o, .leaf p) :: level1 sep r
+  | (k, _, .node kids) :: r => (.str k false, .dict (flattenKids sep kids)) :: level1 sep r
+
+theorem pass_flat (sep : Str) : ∀ (kids : List (Str × Bool × Tree)) (upd : List (RKey × RVal)),
+    WFKids sep kids → (kids.map (·.1)).Nodup →
+    (∀ k ∈ kids.map (·.1), ∀ o, rlookup (.str k o) upd = none) →
+    rolloutPass sep upd (flattenKids sep kids) = .ok (upd ++ level1 sep kids)
+  | [], upd, _, _, _ => by simp [flattenKids, level1, rolloutPass]
+  | (k, o, .leaf p) :: r, upd, hw, hn, hf => by
+    simp only [WFKids] at hw
+    simp only [List.map_cons, List.nodup_cons] at hn
+    have hstep : rolloutStep sep upd (.str k o, .leaf p) = .ok (upd ++ [(.str k o, .leaf p)]) := by
+      simp only [rolloutStep, show splitFirst sep k = none from hw.1]
+      rw [rupsert_fresh _ _ _ (hf k (by simp) o)]
+    simp only [flattenKids, level1, rolloutPass, hstep, bind, Except.bind]
+    rw [pass_flat sep r _ hw.2.2.2.2 hn.2]
+    · simp
+    · intro k2 hk2 o2
+      rw [rlookup_append_none _ _ _ (hf k2 (List.mem_cons_of_mem _ hk2) o2)]
+      have : k2 ≠ k := fun e => hn.1 (e ▸ hk2)
+      simp [rlookup, this]
+  | (k, o, .node kids') :: r, upd, hw, hn, hf => by
+    simp only [WFKids, WFTree] at hw
+    simp only [List.map_cons, List.nodup_cons] at hn
+    have hwk := hw.2.2.2.1.2.2
+    rw [flattenKids_node, pass_append sep _ _ upd _
+      (pass_node sep k hw.2.1 _ upd (flat_ne sep kids' hwk hw.2.2.2.1.1) (hf k (by simp) false)
+        (flat_allStr sep kids' hwk) (flat_nodup sep kids' hwk hw.2.2.2.1.2.1))]
+    rw [pass_flat sep r _ hw.2.2.2.2 hn.2]
+    · simp [level1]
+    · intro k2 hk2 o2
+      rw [rlookup_append_none _ _ _ (hf k2 (List.mem_cons_of_mem _ hk2) o2)]
+      have : k2 ≠ k := fun e => hn.1 (e ▸ hk2)
+      simp [rlookup, this]
+
+def recF (sep : Str) (f : Nat) : RKey × RVal → Except PyExc (RKey × RVal) := fun kv => match kv.2 with
+  | .dict d => do let d' ← rolloutF sep f d; pure (kv.1, RVal.dict d')
+  | v => pure (kv.1, v)
+
+theorem rolloutF_succ (sep : Str) (hs : sep ≠ []) (f : Nat) (kvs : List (RKey × RVal)) :
+    rolloutF sep (f + 1) kvs = (rolloutPass sep [] kvs >>= fun upd => upd.mapM (recF sep f)) := by
+  rw [rolloutF]
+  simp only [List.isEmpty_iff, hs, if_false]
+  rfl
+
+def tdepthK : List (Str × Bool × Tree) → Nat
+  | [] => 0
+  | (_, _, .leaf _) :: r => tdepthK r
+  | (_, _, .node kids) :: r => max (1 + tdepthK kids) (tdepthK r)
+
+theorem flatF_of (sep : Str) (hs : sep ≠ []) (kids : List (Str × Bool × Tree)) (f : Nat)
+    (hw : WFKids sep kids) (hn : (kids.map (·.1)).Nodup)
+    (hm : (level1 sep kids).mapM (recF sep f) = .ok (Tree.toRVal.toKVs kids)) :
+    rolloutF sep (f + 1) (flattenKids sep kids) = .ok (Tree.toRVal.toKVs kids) := by
+  rw [rolloutF_succ sep hs, pass_flat sep kids [] hw hn (by simp [rlookup])]
+  simpa [bind, Except.bind] using hm
+
+theorem mapM_level1 (sep : Str) (hs : sep ≠ []) : ∀ (kids : List (Str × Bool × Tree)) (f : Nat),
+    WFKids sep kids → tdepthK kids ≤ f →
+    (level1 sep kids).mapM (recF sep f) = .ok (Tree.toRVal.toKVs kids)
+  | [], f, _, _ => by simp [level1, Tree.toRVal.toKVs, pure, Except.pure]
+  | (k, o, .leaf p) :: r, f, hw, hd => by
+    simp only [WFKids] at hw
+    simp only [tdepthK] at hd
+    simp only [level1, List.mapM_cons, Tree.toRVal.toKVs, Tree.toRVal, mapM_level1 sep hs r f hw.2.2.2.2 hd]
+    simp [recF, bind, Except.bind, pure, Except.pure]
+  | (k, o, .node kids') :: r, f, hw, hd => by
+    simp only [WFKids, WFTree] at hw
+    simp only [tdepthK] at hd
+    cases f with
+    | zero => omega
+    | succ f' =>
+      have h1 := flatF_of sep hs kids' f' hw.2.2.2.1.2.2 hw.2.2.2.1.2.1
+        (mapM_level1 sep hs kids' f' hw.2.2.2.1.2.2 (by omega))
+      simp only [level1, List.mapM_cons, Tree.toRVal.toKVs, Tree.toRVal,
+        mapM_level1 sep hs r (f' + 1) hw.2.2.2.2 (by omega)]
+      simp [recF, h1, bind, Except.bind, pure, Except.pure, hw.2.2.1]
+
+theorem rsizeL_append (A B : List (RKey × RVal)) :
+    rsize.rsizeL (A ++ B) = rsize.rsizeL A + rsize.rsizeL B := by
+  induction A with
+  | nil => simp [rsize.rsizeL]
+  | cons kv r ih => obtain ⟨k, v⟩ := kv; simp only [List.cons_append, rsize.rsizeL, ih]; omega
+
+theorem rsizeL_pref_le (sep k : Str) (L : List (RKey × RVal)) :
+    rsize.rsizeL L ≤ rsize.rsizeL (L.map (pref sep k)) := by
+  induction L with
+  | nil => simp
+  | cons kv r ih =>
+    obtain ⟨k1, v⟩ := kv
+    cases k1 <;> simp only [List.map_cons, pref, rsize.rsizeL, List.length_append] <;> omega
+
+theorem rsizeL_pref_lt (sep k : Str) (hs : sep ≠ []) (L : List (RKey × RVal)) (hne : L ≠ []) (ha : AllStr L) :
+    rsize.rsizeL L + 1 ≤ rsize.rsizeL (L.map (pref sep k)) := by
+  cases L with
+  | nil => simp at hne
+  | cons kv r =>
+    obtain ⟨s, o, e1⟩ := ha kv (List.mem_cons_self ..)
+    obtain ⟨k1, v⟩ := kv
+    simp only at e1
+    subst e1
+    have := rsizeL_pref_le sep k r
+    have : 0 < sep.length := List.length_pos_iff.mpr hs
+    simp only [List.map_cons, pref, rsize.rsizeL, List.length_append]
+    omega
+
+theorem depth_le_flat (sep : Str) (hs : sep ≠ []) : ∀ kids : List (Str × Bool × Tree), WFKids sep kids →
+    tdepthK kids ≤ rsize.rsizeL (flattenKids sep kids)
+  | [], _ => by simp [tdepthK]
+  | (k, o, .leaf p) :: r, hw => by
+    simp only [WFKids] at hw
+    have := depth_le_flat sep hs r hw.2.2.2.2
+    simp only [tdepthK, flattenKids, rsize.rsizeL]; omega
+  | (k, o, .node kids') :: r, hw => by
+    simp only [WFKids, WFTree] at hw
+    have h1 := depth_le_flat sep hs r hw.2.2.2.2
+    have h2 := depth_le_flat sep hs kids' hw.2.2.2.1.2.2
+    have h3 := rsizeL_pref_lt sep k hs _ (flat_ne sep kids' hw.2.2.2.1.2.2 hw.2.2.2.1.1)
+      (flat_allStr sep kids' hw.2.2.2.1.2.2)
+    rw [flattenKids_node, rsizeL_append]
+    simp only [tdepthK]; omega
+
+theorem rolloutF_flatten (sep : Str) (hs : sep ≠ []) (kids : List (Str × Bool × Tree))
+    (hw : WFTree sep (.node kids)) (f : Nat) (hf : tdepthK kids ≤ f) :
+    rolloutF sep (f + 1) (flattenKids sep kids) = .ok (Tree.toRVal.toKVs kids) := by
+  simp only [WFTree] at hw
+  exact flatF_of sep hs kids f hw.2.2 hw.2.1 (mapM_level1 sep hs kids f hw.2.2 hf)
+
+/-- **C18 (inverse).** flattening a well-formed nested mapping and rolling it out gives the mapping back:
+    same nesting, leaf payloads untouched, `optional` on the same leaves -/
+theorem rollout_flatten (sep : Str) (hs : sep ≠ []) (kids : List (Str × Bool × Tree))
+    (hw : WFTree sep (.node kids)) :
+    rollout sep (flattenKids sep kids) = .ok (Tree.toRVal.toKVs kids) := by
+  have hd := depth_le_flat sep hs kids (by simp only [WFTree] at hw; exact hw.2.2)
+  unfold rollout
+  simp only [rsize]
+  exact rolloutF_flatten sep hs kids hw _ (by omega)
+
+theorem level1_allStr (sep : Str) : ∀ kids : List (Str × Bool × Tree), AllStr (level1 sep kids)
+  | [] => by simp [AllStr, level1]
+  | (k, o, .leaf p) :: r => by
+    intro kv h
+    simp only [level1, List.mem_cons] at h
+    rcases h with rfl | h
+    · exact ⟨k, o, rfl⟩
+    · exact level1_allStr sep r kv h
+  | (k, o, .node kids') :: r => by
+    intro kv h
+    simp only [level1, List.mem_cons] at h
+    rcases h with rfl | h
+    · exact ⟨k, false, rfl⟩
+    · exact level1_allStr sep r kv h
+
+/-- a top-level `...: ...` entry passes through -/
+theorem rollout_flatten_ell (sep : Str) (hs : sep ≠ []) (kids : List (Str × Bool × Tree))
+    (hw : WFTree sep (.node kids)) :
+    rollout sep (flattenKids sep kids ++ [(.ell, .ell)]) = .ok (Tree.toRVal.toKVs kids ++ [(.ell, .ell)]) := by
+  have hw' := hw
+  simp only [WFTree] at hw'
+  have hd := depth_le_flat sep hs kids hw'.2.2
+  have hl : rlookup .ell (level1 sep kids) = none := by
+    rw [rlookup_none_iff]
+    intro kv hkv e
+    obtain ⟨s, o, e'⟩ := level1_allStr sep kids kv hkv
+    rw [e] at e'; cases e'
+  unfold rollout
+  simp only [rsize, rsizeL_append]
+  have : ∀ f, tdepthK kids ≤ f → rolloutF sep (f + 1) (flattenKids sep kids ++ [(.ell, .ell)])
+      = .ok (Tree.toRVal.toKVs kids ++ [(.ell, .ell)]) := by
+    intro f hf
+    rw [rolloutF_succ sep hs, pass_append sep _ _ [] _
+      (pass_flat sep kids [] hw'.2.2 hw'.2.1 (by simp [rlookup]))]
+    simp only [List.nil_append, rolloutPass, rolloutStep, rupsert_fresh _ _ _ hl, bind, Except.bind]
+    rw [List.mapM_append, mapM_level1 sep hs kids f hw'.2.2 hf]
+    simp [recF, bind, Except.bind, pure, Except.pure]
+  exact this _ (by omega)
+
+theorem pass_id (sep : Str) : ∀ (kids : List (Str × Bool × Tree)) (upd : List (RKey × RVal)),
+    WFKids sep kids → (kids.map (·.1)).Nodup →
+    (∀ k ∈ kids.map (·.1), ∀ o, rlookup (.str k o) upd = none) →
+    rolloutPass sep upd (Tree.toRVal.toKVs kids) = .ok (upd ++ Tree.toRVal.toKVs kids)
+  | [], upd, _, _, _ => by simp [Tree.toRVal.toKVs, rolloutPass]
+  | (k, o, t) :: r, upd, hw, hn, hf => by
+    simp only [WFKids] at hw
+    simp only [List.map_cons, List.nodup_cons] at hn
+    have hstep : rolloutStep sep upd (.str k o, t.toRVal) = .ok (upd ++ [(.str k o, t.toRVal)]) := by
+      simp only [rolloutStep, show splitFirst sep k = none from hw.1]
+      rw [rupsert_fresh _ _ _ (hf k (by simp) o)]
+    simp only [Tree.toRVal.toKVs, rolloutPass, hstep, bind, Except.bind]
+    rw [pass_id sep r _ hw.2.2.2.2 hn.2]
+    · simp
+    · intro k2 hk2 o2
+      rw [rlookup_append_none _ _ _ (hf k2 (List.mem_cons_of_mem _ hk2) o2)]
+      have : k2 ≠ k := fun e => hn.1 (e ▸ hk2)
+      simp [rlookup, this]
+
+theorem mapM_id (sep : Str) (hs : sep ≠ []) : ∀ (kids : List (Str × Bool × Tree)) (f : Nat),
+    WFKids sep kids → tdepthK kids ≤ f →
+    (Tree.toRVal.toKVs kids).mapM (recF sep f) = .ok (Tree.toRVal.toKVs kids)
+  | [], f, _, _ => by simp [Tree.toRVal.toKVs, pure, Except.pure]
+  | (k, o, .leaf p) :: r, f, hw, hd => by
+    simp only [WFKids] at hw
+    simp only [tdepthK] at hd
+    simp only [List.mapM_cons, Tree.toRVal.toKVs, Tree.toRVal, mapM_id sep hs r f hw.2.2.2.2 hd]
+    simp [recF, bind, Except.bind, pure, Except.pure]
+  | (k, o, .node kids') :: r, f, hw, hd => by
+    simp only [WFKids, WFTree] at hw
+    simp only [tdepthK] at hd
+    cases f with
+    | zero => omega
+    | succ f' =>
+      have h1 : rolloutF sep (f' + 1) (Tree.toRVal.toKVs kids') = .ok (Tree.toRVal.toKVs kids') := by
+        rw [rolloutF_succ sep hs, pass_id sep kids' [] hw.2.2.2.1.2.2 hw.2.2.2.1.2.1 (by simp [rlookup])]
+        simpa [bind, Except.bind] using mapM_id sep hs kids' f' hw.2.2.2.1.2.2 (by omega)
+      simp only [List.mapM_cons, Tree.toRVal.toKVs, Tree.toRVal,
+        mapM_id sep hs r (f' + 1) hw.2.2.2.2 (by omega)]
+      simp [recF, h1, bind, Except.bind, pure, Except.pure]
+
+theorem depth_le_id : ∀ kids : List (Str × Bool × Tree),
+    tdepthK kids ≤ rsize.rsizeL (Tree.toRVal.toKVs kids)
+  | [] => by simp [tdepthK]
+  | (k, o, .leaf p) :: r => by
+    have := depth_le_id r
+    simp only [tdepthK, Tree.toRVal.toKVs, rsize.rsizeL]; omega
+  | (k, o, .node kids') :: r => by
+    have h1 := depth_le_id r
+    have h2 := depth_le_id kids'
+    simp only [tdepthK, Tree.toRVal.toKVs, Tree.toRVal, rsize.rsizeL, rsize]; omega
+
+theorem rolloutF_id (sep : Str) (hs : sep ≠ []) (kids : List (Str × Bool × Tree))
+    (hw : WFTree sep (.node kids)) (f : Nat) (hf : tdepthK kids ≤ f) :
+    rolloutF sep (f + 1) (Tree.toRVal.toKVs kids) = .ok (Tree.toRVal.toKVs kids) := by
+  simp only [WFTree] at hw
+  rw [rolloutF_succ sep hs, pass_id sep kids [] hw.2.2 hw.2.1 (by simp [rlookup])]
+  simpa [bind, Except.bind] using mapM_id sep hs kids f hw.2.2 hf
+
+/-- **C18 (identity).** rollout of an already nested mapping whose keys contain no separator is the identity -/
+theorem rollout_id (sep : Str) (hs : sep ≠ []) (kids : List (Str × Bool × Tree))
+    (hw : WFTree sep (.node kids)) :
+    rollout sep (Tree.toRVal.toKVs kids) = .ok (Tree.toRVal.toKVs kids) := by
+  have hd := depth_le_id kids
+  unfold rollout
+  simp only [rsize]
+  exact rolloutF_id sep hs kids hw _ (by omega)
+
+/-- a single-character separator that does not occur in the key is safe (the default "." case) -/
+theorem sepSafe_of_single_char (c : Nat) (k : Str) (h : c ∉ k) : SepSafe [c] k ∧ NoSep [c] k := by
+  constructor
+  · intro u
+    induction k with
+    | nil => simp [splitFirst, List.isPrefixOf]
+    | cons x r ih =>
+      simp only [List.mem_cons, not_or] at h
+      have := ih h.2
+      simp only [List.append_assoc, List.cons_append, List.nil_append] at this ⊢
+      simp [splitFirst, List.isPrefixOf, h.1, this]
+  · unfold NoSep
+    induction k with
+    | nil => simp [splitFirst]
+    | cons x r ih =>
+      simp only [List.mem_cons, not_or] at h
+      simp [splitFirst, List.isPrefixOf, h.1, ih h.2]
+
+/-- K9 witness: separator-free but not separator-safe -/
+theorem sepSafe_counterexample : NoSep [58, 58] [120, 58] ∧ ¬ SepSafe [58, 58] [120, 58] := by
+  constructor
+  · simp [NoSep, splitFirst, List.isPrefixOf]
+  · intro h
+    have := h []
+    simp [splitFirst, List.isPrefixOf] at this
+
+/-- non-vacuity: {"a": {"b": 1, optional("c"): 2}, "d": 3} with "." -/
+example : rollout [46] (flattenKids [46] [([97], false, .node [([98], false, .leaf 1), ([99], true, .leaf 2)]), ([100], false, .leaf 3)])
+    = .ok (Tree.toRVal.toKVs [([97], false, .node [([98], false, .leaf 1), ([99], true, .leaf 2)]), ([100], false, .leaf 3)]) := by
+  apply rollout_flatten _ (by simp)
+  have h1 := sepSafe_of_single_char 46 [97] (by simp)
+  have h2 := sepSafe_of_single_char 46 [98] (by simp)
+  have h3 := sepSafe_of_single_char 46 [99] (by simp)
+  have h4 := sepSafe_of_single_char 46 [100] (by simp)
+  simp [WFTree, WFKids, h1, h2, h3, h4]
+
+end D42
